@@ -104,6 +104,26 @@ inductive Value where
   | variant (index : Nat) (payload : Value)
 deriving Repr
 
+/-! structural equality test on values (`Lemmas.Bincode.beq_iff` : `beq a b = true ↔ a = b`) -/
+mutual
+def Value.beq : Value → Value → Bool
+  | .bool a, .bool b => a == b
+  | .num t a, .num u b => decide (t = u) && decide (a = b)
+  | .char a, .char b => decide (a = b)
+  | .str a, .str b => decide (a = b)
+  | .bytes a, .bytes b => decide (a = b)
+  | .none, .none => true
+  | .some a, .some b => Value.beq a b
+  | .seq as, .seq bs => Value.beqAll as bs
+  | .tuple as, .tuple bs => Value.beqAll as bs
+  | .variant i a, .variant j b => decide (i = j) && Value.beq a b
+  | _, _ => false
+def Value.beqAll : List Value → List Value → Bool
+  | [], [] => true
+  | a :: as, b :: bs => Value.beq a b && Value.beqAll as bs
+  | _, _ => false
+end
+
 def lookup {α : Type} (k : String) : List (String × α) → Option α
   | [] => Option.none
   | (k', a) :: rest => if k' = k then Option.some a else lookup k rest
